@@ -250,15 +250,21 @@ class Ctx:
         `locked_funds - x`, a forgotten `flags.set(..)` - lowers the count and is reported with the field; moving an update
         between functions of the crate, or inlining a helper, does not.  Evaluated on the inlined views when it fails on the
         source as written, so two identical updates merged into one new helper are still counted once per call site."""
+        # two classes of update site: in-place mutations through `&mut field` (`+=`, `-=`, `|=`, `.set(..)`, `.insert(..)` ...: each
+        # is a distinct delta and must stay) and plain assignments `x.f = v` (two of which may legitimately be merged into one
+        # expression, e.g. `f = a; if f < b { f = b }` into `f = max(a, b)`: only "still assigned somewhere" is required)
         now = {}
         for fld in fields:
             adt, _, f_ = fld.rpartition('.')
-            n = 0
+            n_mut, n_asg = 0, 0
             for (g, bb, line, kind) in self.prog.field_writes(adt, f_):
                 if g.crate != crate or kind == 'construct' or NEUTRAL.search(g.id):
                     continue
-                n += 1
-            now[fld] = n
+                if kind == 'mutref':
+                    n_mut += 1
+                else:
+                    n_asg += 1
+            now[fld] = [n_mut, n_asg]
         if os.environ.get('BA_FREEZE_ENTRY_SETS') == '1':
             FREEZE_WS.setdefault(crate, {}).update(now)
         try:
@@ -271,14 +277,15 @@ class Ctx:
         ok = True
         for fld, n in sorted(now.items()):
             want = frozen.get(fld)
-            if want is None:
+            if want is None or not isinstance(want, list):
                 self.rep.ob(rule, '%s:%s' % (key, fld), False, '%s: field %s has no frozen count (fail closed: regenerate tables/write_sites.json deliberately)' % (what, fld))
                 ok = False
             else:
-                good = n >= want
+                good = n[0] >= want[0] and (n[1] >= 1 or want[1] == 0)
                 ok = ok and good
                 self.rep.ob(rule, '%s:%s:%s' % (key, crate.replace('fil_actor_', ''), fld), good,
-                            '%s: %s is updated at %d place(s) in %s, the reviewed tree has %d%s' % (what, fld, n, crate, want, '' if good else ': an update of this field disappeared'))
+                            '%s: %s has %d in-place update site(s) and %d assignment(s) in %s, the reviewed tree has %d and %d%s' % (
+                                what, fld, n[0], n[1], crate, want[0], want[1], '' if good else ': an update of this field disappeared'))
         return ok
 
     # ------------------------------------------------------------------ K15 tolerated failures
